@@ -203,20 +203,28 @@ impl<I: Index> SimpleTermIndex<I> {
     /// Verification hook: for each index `i`,
     /// does `i2t[i]` borrow its string data from the very key that `t2i` maps to `i`?
     pub fn verif_audit(&self) -> Vec<bool> {
+        // a string of i2t[i] is fine if i2t[i] owns it (quoted triples are deep copies)
+        // or if it is borrowed from the corresponding string of the key
+        fn same(owned: bool, x: &str, y: &str) -> bool {
+            owned || (std::ptr::eq(x.as_ptr(), y.as_ptr()) && x.len() == y.len())
+        }
         fn same_storage(a: &SimpleTerm<'_>, b: &SimpleTerm<'_>) -> bool {
-            fn same(x: &str, y: &str) -> bool {
-                std::ptr::eq(x.as_ptr(), y.as_ptr()) && x.len() == y.len()
-            }
             use SimpleTerm::*;
             match (a, b) {
-                (Iri(x), Iri(y)) => same(x.as_str(), y.as_str()),
-                (BlankNode(x), BlankNode(y)) => same(x.as_str(), y.as_str()),
-                (Variable(x), Variable(y)) => same(x.as_str(), y.as_str()),
+                (Iri(x), Iri(y)) => same(x.clone().unwrap().is_owned(), x.as_str(), y.as_str()),
+                (BlankNode(x), BlankNode(y)) => {
+                    same(x.clone().unwrap().is_owned(), x.as_str(), y.as_str())
+                }
+                (Variable(x), Variable(y)) => {
+                    same(x.clone().unwrap().is_owned(), x.as_str(), y.as_str())
+                }
                 (LiteralDatatype(l1, d1), LiteralDatatype(l2, d2)) => {
-                    same(l1, l2) && same(d1.as_str(), d2.as_str())
+                    same(l1.is_owned(), l1, l2)
+                        && same(d1.clone().unwrap().is_owned(), d1.as_str(), d2.as_str())
                 }
                 (LiteralLanguage(l1, t1), LiteralLanguage(l2, t2)) => {
-                    same(l1, l2) && same(t1.as_str(), t2.as_str())
+                    same(l1.is_owned(), l1, l2)
+                        && same(t1.clone().unwrap().is_owned(), t1.as_str(), t2.as_str())
                 }
                 (Triple(x), Triple(y)) => x.iter().zip(y.iter()).all(|(x, y)| same_storage(x, y)),
                 _ => false,
